@@ -18,7 +18,7 @@ PRELUDE = '''\
 from depsim.cemu import (
     UINT_MAX, NULL, config, pair_unsigned_unsigned, unordered_set_unsigned,
     cache_type, combinator_result, parse_sentence, as_float_ptr, check_buffer,
-    check_type, noexcept,
+    check_type, noexcept, c_integer,
 )
 '''
 
@@ -31,7 +31,8 @@ _OBJECT_DECLS = {
     'combinator_result': 'combinator_result()',
 }
 # declarations that carry no run-time object in Python
-_PLAIN_CTYPES = ('unsigned', 'int', 'float', 'bint', 'float *', 'float*', 'unsigned *')
+_PLAIN_CTYPES = ('unsigned long', 'unsigned', 'int', 'float', 'double', 'bint', 'float *', 'float*', 'unsigned *',
+                 'size_t', 'Py_ssize_t', 'long', 'uintptr_t')
 _PY_TYPES = {'list': 'list', 'dict': 'dict', 'tuple': 'tuple', 'set': 'set', 'str': 'str'}
 
 _PARAM_RE = re.compile(r'^(?P<type>.*?)(?P<name>[A-Za-z_]\w*)$')
@@ -39,6 +40,8 @@ _PARAM_RE = re.compile(r'^(?P<type>.*?)(?P<name>[A-Za-z_]\w*)$')
 
 def _strip_casts(line):
     line = re.sub(r'<float\s*\*>\s*([A-Za-z_]\w*)\.data', r'as_float_ptr(\1)', line)
+    # pointer / integer casts used to identify a C object by its address
+    line = re.sub(r'<(?:size_t|uintptr_t|Py_ssize_t|unsigned long|long)>\s*([A-Za-z_][\w.]*)', r'c_integer(\1)', line)
     line = re.sub(r'<object>\s*', '', line)
     line = re.sub(r'<void\s*\*>\s*', '', line)
     return line
@@ -219,6 +222,13 @@ def transliterate(source):
                     handled = True
                     break
             if handled:
+                i += 1
+                continue
+            m3 = re.match(r'^(list|dict|tuple|set|str|object)\s+(\w+)\s*=\s*(.+)$', decl)
+            if m3:
+                out.append(f'{indent}{m3.group(2)} = {_strip_casts(m3.group(3))}')
+                if m3.group(1) in _PY_TYPES:
+                    out.append(f"{indent}check_type({m3.group(2)}, {_PY_TYPES[m3.group(1)]}, '{m3.group(2)}')")
                 i += 1
                 continue
             for pt in _PY_TYPES:
